@@ -200,14 +200,15 @@ harness("dir_validate_total", props=["C05", "C16", "C04"], tier="parked", timeou
         what="Directory::validate on a 3-entry directory (root + a, b) whose left/right/child links are ANY u32 and whose colours and non-root types are arbitrary: never panics, terminates; permissive acceptance == (reachable links in range, a tree, storages/streams only, locally ordered); strict == permissive and no two adjacent reds; lookups on every accepted directory terminate and return only the named reachable slot",
         bounds="3 directory entries, names a < b concrete; all link values (any u32), colours and types symbolic", functions=["Directory::validate", "Directory::stream_id_for_name_chain", "path::compare_names"], assumes=[A_UPTABLE, "stream entries carry no child (DirEntry::read_from rejects that in both modes: dirent_parse_stream_*)"])
 # ---------------------------------------------------------------- C13/C02/C17: fault inside a directory entry update (h_dfault.rs)
-for (_n, _t) in [("at0", "parked"), ("at1", "parked"), ("at2", "parked"), ("at3", "parked"), ("at9", "parked"), ("at20", "parked")]:
-    harness("c13_dirent_fault_" + _n, props=["C13", "C02", "C17"], tier=_t, timeout=7200, mem=10, stubs=[FMT],
+A_NOINTR = "stub: io::Error::is_interrupted returns false (the FaultAt backend never interrupts; std's write_all/read_exact would otherwise make the 'interrupted, retry' arm symbolic control for every call after the fault)"
+for (_n, _t) in [("at0", "quick"), ("at1", "thorough"), ("at2", "thorough"), ("at3", "quick"), ("at9", "thorough"), ("at20", "thorough")]:
+    harness("c13_dirent_fault_" + _n, props=["C13", "C02", "C17"], tier=_t, timeout=1800, mem=8, stubs=[FMT, "is_interrupted"],
             what="with_dir_entry_mut (last step of every write-back, of set_len and of every setter) with the k-th backend seek/write failing: the error surfaces; after the same update is retried without fault and returns Ok, the 128 bytes of the entry in the file (own encoder) equal the entry in memory - an Ok must be durable",
-            bounds="fault position k concrete per instance; new start sector / length / state bits arbitrary (symbolic); 4-entry v3 directory in a 2-sector image", functions=["Directory::with_dir_entry_mut", "Directory::write_dir_entry", "DirEntry::write_to", "Chain::write"], assumes=[A_SHAPE])
+            bounds="fault position k concrete per instance; new start sector / length / state bits arbitrary (symbolic); 4-entry v3 directory in a 2-sector image", functions=["Directory::with_dir_entry_mut", "Directory::write_dir_entry", "DirEntry::write_to", "Chain::write"], assumes=[A_SHAPE, A_NOINTR])
 for _k in range(9):
-    harness("c13_mini_first_fault_at%d" % _k, props=["C13", "C02"], tier="parked", timeout=7200, mem=10, stubs=[FMT, STUB_COPY],
+    harness("c13_mini_first_fault_at%d" % _k, props=["C13", "C02"], tier=("thorough" if _k in (0, 1) else "parked"), timeout=1800, mem=8, stubs=[FMT, STUB_COPY, "is_interrupted"],
             what="begin_mini_chain on a fresh file (no MiniFAT yet) with the k-th backend seek/write failing, then retried without fault: the error surfaces; if the retry returns Ok the header names the MiniFAT sector the allocator uses, the MiniFAT cell and the root entry are in the file (an Ok after a failed attempt must leave a file that reopens)",
-            bounds="fault position k concrete per instance (0..8); 2-sector v3 image growing to 4", functions=MINI_F + ["Allocator::allocate_sector", "Sectors::init_sector"], assumes=[A_SHAPE, A_IOCOPY])
+            bounds="fault position k concrete per instance (0..8); 2-sector v3 image growing to 4", functions=MINI_F + ["Allocator::allocate_sector", "Sectors::init_sector"], assumes=[A_SHAPE, A_IOCOPY, A_NOINTR])
 # ---------------------------------------------------------------- C11: entries whose (start sector, length) disagree with their chain (h_incons.rs)
 _INCONS = [("eoc100_write0", "quick"), ("eoc100_write_at_len", "thorough"), ("eoc100_resize50", "quick"), ("eoc100_resize200", "thorough"), ("eoc100_resize0", "thorough"),
            ("eoc100_read", "thorough"), ("eoc5000_write0", "thorough"), ("eoc5000_resize100", "thorough"),
@@ -409,7 +410,7 @@ _CQ = seqs.quick()
 QUICK.update({
     "C01": ["c09_cmp_ascii_2_2", "c09_cmp_sigma_1_2"] + _RM[:4] + _INS[:1] + _LOOK[:1] +
            ["stor_read_cross", "stor_write_mid", "api_ref_parent_is_stream", "api_ref_new_stream_exists", "big_remove_4096"],
-    "C02": ["alloc_begin_free13", "alloc_extend_nofree", "alloc_free_chain3", "mini_begin_reuse", "mini_begin_at_128", "mini_free_tail2", "open_valid_permissive", "dir_rm_n4_s7_v2",
+    "C02": ["alloc_begin_free13", "alloc_extend_nofree", "alloc_free_chain3", "mini_begin_reuse", "mini_begin_at_128", "mini_free_tail2", "c13_dirent_fault_at3", "open_valid_permissive", "dir_rm_n4_s7_v2",
             "dir_rm_n4_s8_v3", "dir_ins_n3_s0_g1", "dirent_rt_storage_2", "hdr_roundtrip", "api_setters", "difat_second_sector",
             "cache_c_write_flush_write_read_min"],
     "C03": ["alloc_begin_nofree", "alloc_free_after3", "mini_begin_after_empty", "mini_free_cross", "mini_free_all",
@@ -431,13 +432,13 @@ QUICK.update({
            ["c11_incons_eoc100_write0", "c11_incons_eoc100_resize50", "c11_incons_short300_write_beyond", "c11_incons_reg_in_mini_resize0",
             "c11_resize_u64max", "c11_write_data_overflow", "c11_write_total", "c11_incons_regshort_resize4500", "c11_root_cycle_append", "open_uncovered_reuse"],
     "C12": ["stor_read_fault_seek0", "stor_read_fault_seek1", "stor_read_fault_read0", "stor_read_cross"] + [n for n in seqs.quick_faults() if "c12" in n],
-    "C13": ["c13_free_fault_at0", "c13_free_fault_at2", "c13_free_fault_at4", "cache_c_write_flush_write_read_min"] + [n for n in seqs.quick_faults() if "c13" in n],
+    "C13": ["c13_free_fault_at0", "c13_free_fault_at2", "c13_free_fault_at4", "c13_dirent_fault_at0", "c13_dirent_fault_at3", "cache_c_write_flush_write_read_min"] + [n for n in seqs.quick_faults() if "c13" in n],
     "C14": ["c14_lookups", "c14_iter_root", "c14_iter_walk", "c14_iter_storage", "c14_stream_rw", "c14_stream_setlen", "c14_stream_big_window"],
     "C15": ["alloc_begin_free13", "alloc_extend_free3", "alloc_free_chain3", "alloc_free_after3", "mini_begin_reuse",
             "mini_begin_after_empty", "mini_begin_at_128", "mini_free_tail2", "mini_free_all", "dir_ins_n3_s0_g1", "big_4096_to_100"],
     "C16": ["dirent_parse_storage_v3", "dirent_parse_stream_v3", "dirent_parse_root_v3", "dirent_parse_badtype_v3",
             "alloc_validate_rel", "dirent_root_name_lower", "dirent_rt_root", "open_valid_permissive", "open_valid_strict"],
-    "C17": ["dirent_rt_storage_2", "dirent_rt_root", "api_setters", "dir_ins_n3_s0_g1", "hdr_roundtrip"],
+    "C17": ["dirent_rt_storage_2", "dirent_rt_root", "api_setters", "dir_ins_n3_s0_g1", "hdr_roundtrip", "c13_dirent_fault_at3"],
     "C18": ["chunky_init_zero_one", "chunky_init_zero_intr", "chunky_init_fat_one", "chunky_dirent_one", "chunky_stor_first_one", "cache_c_write_longer_than_buffer_min",
             "cache_c_write_longer_than_buffer_b12", "cache_c_read_then_shrink_inside_window_min", "cache_c_read_then_shrink_inside_window_b32", "big_write_migrate"],
 })
